@@ -499,7 +499,13 @@ func main() {
 	parseMode := flag.Bool("parse", false, "parse mode: --exit-delay through every command's flag set and parseRawOptions")
 	rxMode := flag.Int("rx", 0, "rx mode: real receiver over a quiet reader, runs with up to this many consecutive temporary errors")
 	rxOnly := flag.Int("rxonly", -1, "rx mode: only this case id")
+	pktMode := flag.Bool("pkt", false, "pkt mode: real packet / application engine under startScanEngine with write faults")
+	pktOnly := flag.Int("pktonly", -1, "pkt mode: only this case id")
 	flag.Parse()
+	if *pktMode {
+		pktAll(*out, *pktOnly)
+		return
+	}
 	if *parseMode {
 		parseAll(*out)
 		return
